@@ -52,6 +52,12 @@ func c04Gen(tier string, emit func(c04Case)) {
 			vectors("pnd", n, func(b string) { push(chainShape{N: n, Split: sp, Via: viaFor(sp), Beh: b, Hooks: "C"}) })
 		}
 	}
+	// a HEAD-only dynamic route next to a GET route with other middleware on a caching router, measured after GET and HEAD warmed the cache
+	for n := 1; n <= 4; n++ {
+		for _, sp := range splitsOf(n - 1) {
+			vectors("pn", n, func(b string) { push(chainShape{N: n, Split: sp, Via: "use", Beh: b, Hooks: "K"}) })
+		}
+	}
 	// group middleware added one Use at a time + a later sibling route with middleware of its own
 	// ... with three (and five) group middleware: append gives the slice spare capacity exactly then
 	for _, sp := range [][3]int{{0, 3, 1}, {1, 3, 1}, {0, 3, 2}, {0, 5, 1}} {
@@ -67,6 +73,25 @@ func c04Gen(tier string, emit func(c04Case)) {
 			}
 			for _, via := range []string{"variadic", "use", "mixed"} {
 				vectors("pn", n, func(b string) { push(chainShape{N: n, Split: sp, Via: via, Beh: b, Hooks: "S"}) })
+			}
+		}
+	}
+	// the chain of every action of a resource controller (route middleware from Uses()), for every method of the REST table
+	for n := 1; n <= 3; n++ {
+		for _, sp := range splitsOf(n - 1) {
+			for _, via := range chainResVias {
+				vectors("pn", n, func(b string) { push(chainShape{N: n, Split: sp, Via: via, Beh: b}) })
+			}
+		}
+	}
+	// caller-owned spread slices with spare capacity, reused by the caller for a second router / a sibling route
+	for n := 2; n <= 4; n++ {
+		for _, sp := range splitsOf(n - 1) {
+			for _, via := range []string{"variadic", "use", "mixed"} {
+				if sp[2] < 2 && via == "mixed" {
+					continue
+				}
+				vectors("pn", n, func(b string) { push(chainShape{N: n, Split: sp, Via: via, Beh: b, Hooks: "V"}) })
 			}
 		}
 	}
